@@ -31,7 +31,7 @@ CHECKS = {
          "always rejected for the same constant). BIP173/350 vectors are evaluated in the kernel. The executable model (with the generated "
          "network table) is compared with addr_base58_to_pubkeyhash, deserialize_address, Address.parse, addr_bech32_to_pubkeyhash, Key(wif), "
          "HDKey(xkey), HDKey.from_wif on EVERY single substitution/insertion/deletion/transposition of sampled valid strings of every class and "
-         "network, plus random damage, case changes, truncation and padding. Strings with a CORRECT checksum over a payload that is not one of the class (wrong length, wrong compression flag, key field contradicting the version, unknown version) are generated for addresses, WIFs and extended keys. Found and fixed through this check: F05, F06, F27, F28, F69 (WIF payload of any length accepted), F70 (xprv carrying a public key accepted). Every (witness version, program length 1..41, 64, 65) with a valid checksum and the q-insertion strings are swept. Listed: F47 (encoder mistakes some unusual-length programs for scripts)."),
+         "network, plus random damage, case changes, truncation and padding. Strings with a CORRECT checksum over a payload that is not one of the class (wrong length, wrong compression flag, key field contradicting the version, unknown version) are generated for addresses, WIFs and extended keys. Found and fixed through this check: F05, F06, F27, F28, F69 (WIF payload of any length accepted), F70 (xprv carrying a public key accepted), F107 (BIP38 flag bytes with reserved bits). The four BIP38 vectors are opened with their passphrase as valid strings, as single-edit mutants and as re-checksummed payloads BIP38 does not define. Every (witness version, program length 1..41, 64, 65) with a valid checksum and the q-insertion strings are swept. Listed: F47 (encoder mistakes some unusual-length programs for scripts)."),
    design_ref='DESIGN.md §5 C11',
    note=COMMON_NOTE + "Cryptographic residue (not a theorem): a corrupted Base58Check string is rejected unless the 4-byte SHA-256d checksums collide (2^-32). "
         "convertbits round trip and HRP-character substitutions are covered by the correspondence run only. A refusal of a string the Spec would accept "
@@ -44,7 +44,7 @@ CHECKS = {
          "clear sign bit. The Lean parser, SHA-256d (native) and serialiser are an independent implementation: every synthetic transaction (independent "
          "harness serialiser; empty/one-byte/non-standard scripts, coinbase, counts across 252/253), the repository's raw vectors and every transaction "
          "of real mainnet blocks (250000, 330000; thorough: 625007, 629999, 722010 = 8469 transactions) is parsed by both; fields, txid, block hash, "
-         "target, both block readers and byte-exact re-serialisation are compared. Found and fixed through this check: F31, F32, F30a, F49 (segwit coinbase with an arbitrary reserved value), F99 (Block.parse_bytesio on a stream that does not start at the block; the pre-positioned read runs under a 300 s wall-clock limit); listed: F02, F30."),
+         "target, both block readers and byte-exact re-serialisation are compared. Found and fixed through this check: F31, F32, F30a, F49 (segwit coinbase with an arbitrary reserved value), F99 (Block.parse_bytesio on a stream that does not start at the block; the pre-positioned read runs under a 300 s wall-clock limit), F106 (a block followed by more bytes in its stream); witness stacks handed to Input as one byte string are checked item for item; listed: F02, F30, F111 (segwit-kind transaction with legacy inputs only serialises with marker and empty witnesses; repair pinned out by a baseline test; checked directly, the Lean parser reads such bytes)."),
    design_ref='DESIGN.md §5 C06',
    note=COMMON_NOTE + "SHA-256 is executable reference code validated by vectors and by agreement with hashlib on every case (nothing is proved about it). "
         "strict=True refusals of non-standard content are counted, not violations."),
@@ -70,7 +70,7 @@ CHECKS = {
          "nonce as fastecdsa derives it from sha256 of the ASCII-hex digest, low-S, strict DER): for every generated (key, digest[, nonce]) - incl. "
          "digests crafted so that s hits n/2, n/2+1, 2^255-1, 2^255, 2^255+1, n-1 - r, s, DER bytes and nonce must be identical; every signature is "
          "verified by the independent Lean secp256k1 verifier and re-decoded by a strict BIP66 decoder; library-derived nonces are pairwise distinct; "
-         "the library verifier must answer exactly like the standard verifier on r,s in {0,1,n-1,n,n+1,2^256-1,+n}, high-S twins, wrong keys, digest +-1; the digest as bytes / lower-case / upper-case hexadecimal and the public key as object / bytes / hexadecimal text are one message and one key; der_encode_sig / convert_der_sig are compared with the model on structured (r, s). Found and fixed: F10, F63 (nonce depended on the case of the digest text), F64 (public key as text not accepted), F90 (DER signatures of 64 bytes or less refused). Public keys that are not on the curve (non-strict Key objects) are offered with forged signatures."),
+         "the library verifier must answer exactly like the standard verifier on r,s in {0,1,n-1,n,n+1,2^256-1,+n}, high-S twins, wrong keys, digest +-1; the digest as bytes / lower-case / upper-case hexadecimal and the public key as object / bytes / hexadecimal text are one message and one key; der_encode_sig / convert_der_sig are compared with the model on structured (r, s). Found and fixed: F10, F63 (nonce depended on the case of the digest text), F64 (public key as text not accepted), F90 (DER signatures of 64 bytes or less refused), F108 (raw signatures whose r begins 30 3d refused). Public keys that are not on the curve (non-strict Key objects) are offered with forged signatures."),
    design_ref='DESIGN.md §5 C13',
    note=COMMON_NOTE + "Hypotheses, not theorems: secp256k1's points form a cyclic group of prime order n with x(-R) = x(R); HMAC-SHA256 collision resistance for "
         "'nonce never shared'. Curve arithmetic, SHA-256, HMAC in the driver are reference code validated by vectors and by agreement with fastecdsa. "
@@ -147,7 +147,7 @@ CHECKS = {
          "commitment of redeem/witness script and key to the previous output). For API-built transactions over 8 spend kinds, random signer subsets "
          "and orders, signing spread over per-input and whole-transaction calls with repeats, then 11 kinds of single-field tampering of the object "
          "and of the parsed serialisation (incl. corrupted / foreign / duplicated signatures at byte level): library verdict must match the "
-         "expectation, and library-accepts implies the independent verifier accepts. Keys attached to the inputs, a change after signing and sign_and_update() are part of every run. Found and fixed: F35 (sign() early exits), F33, F53 (re-signed pay-to-public-key input kept the old signature in its script), F73 (hash type byte of witness signatures ignored), F74 / F76 (signing a multisig input again), F75 (Input.valid stale). The hash type byte of a signature is one of the tamperings; a multisig input is signed by exactly m cosigners, changed and signed again."),
+         "expectation, and library-accepts implies the independent verifier accepts. Keys attached to the inputs, a change after signing and sign_and_update() are part of every run. Found and fixed: F35 (sign() early exits), F33, F53 (re-signed pay-to-public-key input kept the old signature in its script), F73 (hash type byte of witness signatures ignored), F74 / F76 (signing a multisig input again), F75 (Input.valid stale), F101 (hash type byte of a later multisig signature), F102 (outpoint zeroed in the serialisation becomes a coinbase input), F116 (address-only multisig input adopts any key). The hash type byte of a signature is one of the tamperings; a multisig input is signed by exactly m cosigners, changed and signed again."),
    design_ref='DESIGN.md §5 C02',
    note=COMMON_NOTE + "Cryptographic residue: that a changed digest is not matched by the old signature rests on ECDSA/SHA-256. verify() trusts the input's own redeem script "
         "(the previous output is not part of a transaction); the independent verifier is given the previous output script and amount, as a node would have them (see F25 under C10)."),
@@ -174,7 +174,7 @@ CHECKS = {
          "providers, priority orders, max_providers in {1,2}, max_errors in {1,2,4}: returned value, results and errors bookkeeping must match. Every "
          "query method (sendrawtransaction, getrawtransaction, getbalance, getutxos, gettransaction, mempool, isspent, estimatefee) is run on all "
          "{ok, False, exception}^2 patterns cold and warm: the answer must be the first responding provider's, a failure, or - warm - exactly what "
-         "was stored. Additionally proved: a cache read returns what was stored for that key, and along ANY history of cached queries (cold / warm / partially filled cache, any failures) every value returned for a key was answered by some provider for that key in this or an earlier query; random histories of Service.gettransaction over several txids are compared with this cache + provider machine. Blocks read page by page (cold and from the cache), getrawblock, getinfo, getinputvalues, transactions with outputs of value 0 and a cached transaction read after the cached block count expired are included. Found and fixed: F95 (negative confirmations from the cache). Listed finding: F36 (getbalance reports 0 when no provider answered; the repair breaks an unedited offline test)."),
+         "was stored. Additionally proved: a cache read returns what was stored for that key, and along ANY history of cached queries (cold / warm / partially filled cache, any failures) every value returned for a key was answered by some provider for that key in this or an earlier query; random histories of Service.gettransaction over several txids are compared with this cache + provider machine. Blocks read page by page (cold and from the cache), getrawblock, getinfo, getinputvalues, transactions with outputs of value 0 and a cached transaction read after the cached block count expired are included. Found and fixed: F95 (negative confirmations from the cache), F109 (a provider answering None ended the query). getutxos on a cache that was partially filled by gettransaction(s) from providers that do not know the spent status is compared with the provider's answer. Listed finding: F36 (getbalance reports 0 when no provider answered; the repair breaks an unedited offline test)."),
    design_ref='DESIGN.md §5 C20',
    note=COMMON_NOTE + "Providers are in-process fakes (timeouts and partial HTTP answers are represented by the outcome classes); the SQL cache is exercised, not modelled; estimatefee's clamping/default is a documented normalisation; blockcount's provider-consensus vote is outside the model."),
  'C17': dict(
@@ -229,7 +229,7 @@ CHECKS = {
          "failing push, transactions built by one Wallet object and imported as object / raw hex / dict into a second one and sent there, "
          "transaction_delete of sent and stub transactions, close+reopen, new keys) with real wallets (HD legacy / segwit / p2sh-segwit, "
          "single-key, multisig): utxos(), balance(), per-key balances through the open object AND a second Wallet object on the same database, "
-         "in random observation order; stored transactions are reloaded and compared (id, inputs, outputs, raw). Wallets with another default account, re-listed (also spent) outpoints, small sequence numbers, held key objects and held transaction objects sent again are part of the histories. Found and fixed: F17, F23, F24, F38, F85 (outputs filed under account 0), F86 (sequence 0 reloaded as 0xffffffff), F87 (bulk-created key objects not registered), F96 (a stale object sent again un-spent outputs)."),
+         "in random observation order; stored transactions are reloaded and compared (id, inputs, outputs, raw). Wallets with another default account, re-listed (also spent) outpoints, small sequence numbers, held key objects and held transaction objects sent again are part of the histories. Found and fixed: F17, F23, F24, F38, F85 (outputs filed under account 0), F86 (sequence 0 reloaded as 0xffffffff), F87 (bulk-created key objects not registered), F96 (a stale object sent again un-spent outputs), F103 (delete freed outputs a replacement still consumes), F104 / F105 (account 0 read as no account; sweep dropped the account), F110 (raw import replaced lock time 0), F117 (a deleted parent stored again listed its spent change). The ledger machine admits replacements, held unsent objects sent later and re-stored transactions (send guard without the unspent / fresh-input conditions, delete frees only what no other stored transaction consumes); wallets with two accounts run one machine per account."),
    design_ref='DESIGN.md §5 C08',
    note=COMMON_NOTE + "One network and one account per wallet; SQL semantics and two simultaneously open SQLAlchemy sessions are outside the model (a hand-off continues on the receiving object). Outputs on non-leaf keys of an HD wallet are not generated."),
  'C07': dict(
@@ -245,7 +245,7 @@ CHECKS = {
          "(fee, fee_per_kb, inputs, change amounts or the error kind; random.randint and numpy dirichlet draws recorded), sweep, "
          "Transaction.bumpfee and WalletTransaction.bumpfee (incl. the extra-input fallback). Every created transaction is additionally checked against the sentences of C07 on the objects and on the raw "
          "bytes parsed by the Lean parser (recipients once with exact script, other outputs to change keys, inputs distinct/unspent/confirmed, "
-         "signs and verifies). Found and fixed: F39, F41, F42, F48 (duplicate explicit inputs), F88 (fee rate below the network minimum with many inputs; the theorem create_rate_limits is now about the rate of the final fee, and the signed bytes are checked to pay a rate within 10% of the limits), F89 (sweep with several rest targets; sweepPlan guard + sweep_one_rest), F98 (estimate_size of nested segwit inputs; nestedScriptSig in the model); listed: F40 (invalid explicit input lists are accepted)."),
+         "signs and verifies). Found and fixed: F39, F41, F42, F48 (duplicate explicit inputs), F88 (fee rate below the network minimum with many inputs; the theorem create_rate_limits is now about the rate of the final fee, and the signed bytes are checked to pay a rate within 10% of the limits), F89 (sweep with several rest targets; sweepPlan guard + sweep_one_rest), F98 (estimate_size of nested segwit inputs; nestedScriptSig in the model), F115 (fee bump over several change outputs took the whole extra fee again from the output that pays the rest; bumpLoop subtracts the remaining fee); listed: F40 (invalid explicit input lists are accepted)."),
    design_ref='DESIGN.md §5 C07',
    note=COMMON_NOTE + "Rows with equal (confirmations, value) may come back from SQLite in either order; selections differing only in such ties count as equal. send()'s fee re-estimation is exercised through C08 histories, not modelled."),
  'C09': dict(
@@ -261,7 +261,7 @@ CHECKS = {
          "key_for_path, keys becoming used, reopen); every key handed out and every leaf row is re-derived from the seed by the Lean BIP32 model "
          "and its address recomputed by the Lean address model; keys.path_expand is compared on partial paths with all hardened spellings; "
          "wallets are re-created from seed, mnemonic, xprv and (watch-only) account xpub and must reproduce the addresses. "
-         "Histories now also ask for the account public key in the middle (public_master), add an account on a second network, give a watch-only wallet its private master key and reopen it, and run the index machine on cosigner wallets of multisigs. Found and fixed: F43, F44, F54, F55, F56, F97 (new_key with a cosigner ID on a single-signature wallet)."),
+         "Histories now also ask for the account public key in the middle (public_master), add an account on a second network, give a watch-only wallet its private master key and reopen it, and run the index machine on cosigner wallets of multisigs. Found and fixed: F43, F44, F54, F55, F56, F97 (new_key with a cosigner ID on a single-signature wallet), F112 (multisig keys asked for by [change, index] stored under index 0), F114 (key_for_path with a cosigner ID on a single-signature wallet). The change-chain wrappers get_key_change / get_keys_change are part of every history."),
    design_ref='DESIGN.md §5 C09',
    note=COMMON_NOTE + "Histories run on single-signature HD wallets; multisig key paths are covered by the table and path theorems and by the cosigner-wallet comparison of C10."),
  'C10': dict(
@@ -276,7 +276,7 @@ CHECKS = {
          "ceremonies over all signer sequences (incl. a cosigner signing twice) with hand-off as object, dict and raw hex: after every step "
          "the number of signatures and verify() must equal the model, the redeem script of the spend must be the sorted-key script, and "
          "send(broadcast=True) must push iff at least m distinct cosigners signed. Found and fixed: F24 (dict hand-off), F25 (raw hand-off "
-         "broadcast a 2-of-2 with one signature), F50 (dict hand-off dropped sequence numbers), F57 (multi-input dict hand-off signed in the wrong key order); listed: F26 (raw hand-off loses partial signatures; never an under-signed broadcast)."),
+         "broadcast a 2-of-2 with one signature), F50 (dict hand-off dropped sequence numbers), F57 (multi-input dict hand-off signed in the wrong key order), F100 (ceremonies beyond the threshold through dict hand-offs duplicated and lost signatures; 2-of-5 in the quick tier), F113 (eleven and more cosigners: reopened wallet loaded the cosigner wallets by name); listed: F26 (raw hand-off loses partial signatures; never an under-signed broadcast)."),
    design_ref='DESIGN.md §5 C10',
    note=COMMON_NOTE + "ECDSA validity of the individual signatures is C02/C13; here the signer set, its order-independence and the threshold are decided. n up to 15 is covered by the theorems (any n), the run stops at n = 5."),
 }
